@@ -599,7 +599,7 @@ func genC18sPlan(r *zsim.Rng) *c18sPlan {
 		ses := c18Session{End: []string{"enter", "enter", "enter", "esc", "ctrl-c", "alt-p", "alt-b"}[r.Intn(7)]}
 		for k := r.Intn(10); k > 0; k-- {
 			// alt-s: search(hx) - what is searched is not what was typed; the history records the query line
-			ses.Steps = append(ses.Steps, []string{"a", "b", "z", "q", "ctrl-p", "ctrl-p", "ctrl-n", "bspace", "alt-s", "alt-t", "ctrl-p", "ctrl-n"}[r.Intn(12)])
+			ses.Steps = append(ses.Steps, []string{"a", "b", "z", "q", "ctrl-p", "ctrl-p", "ctrl-n", "bspace", "alt-s", "alt-t", "ctrl-p", "ctrl-n", "alt-i"}[r.Intn(13)])
 		}
 		p.Sessions = append(p.Sessions, ses)
 	}
@@ -639,7 +639,9 @@ func runC18s(c *runCtx) {
 		sp.Args = append(append([]string{}, plan.sysPlan.Args...), "--history", path, "--history-size", strconv.Itoa(plan.Max),
 			"--bind", "alt-s:search(hx)", "--bind", "alt-p:print-query", "--bind", "alt-b:become(BE {})",
 			// alt-t: the query line is replaced by the output of a command - an edit like any other
-			"--bind", "alt-t:transform-query(TQ 1)")
+			"--bind", "alt-t:transform-query(TQ 1)",
+			// alt-i: the input section is hidden / shown again; while it is hidden the query line cannot change
+			"--bind", "alt-i:toggle-input")
 		sp.Procs = []procSpec{{Text: "tq\n"}}
 		sp.Events = []sysEvent{{Kind: "settle"}}
 		for _, k := range ses.Steps {
@@ -671,7 +673,15 @@ func runC18s(c *runCtx) {
 				modified[pos] = s
 			}
 		}
+		hidden := false
 		for _, k := range ses.Steps {
+			if k == "alt-i" {
+				hidden = !hidden
+				continue
+			}
+			if hidden {
+				continue // nothing can change the query line, so nothing moves through the history either
+			}
 			switch k {
 			case "ctrl-p":
 				store(input)
